@@ -10,7 +10,7 @@ RULE = ('Hypothesis draws a domain (2-4 attrs, sizes 1-4), 0-5 measurements (inc
         'all-zero queries and measurements the uniform model already fits exactly), total known or omitted, solver in '
         '{MD,RDA,IG}, iters in {1,2,3,10,50,300}, optional structural zeros, optional constant MD step size, optional '
         'elimination order. Oracle: brute-force joint of the returned potentials: stored marginals, every project() '
-        'answer over all attribute subsets (drawn orders) and datavector must equal its marginals, be finite, >=0 and sum '
+        'answer over all attribute subsets (drawn orders; asked twice, the first answers overwritten in place by the caller) and datavector must equal its marginals, be finite, >=0 and sum '
         'to model.total. Non-trivial = model with >=2 cliques and both in-clique and out-of-clique tuples queried; '
         'distinct by sha1.')
 BUDGET = {'quick': 3200, 'thorough': 64000}
@@ -52,7 +52,10 @@ def coherent(out, model, attrs, shape, order_seed, tag=''):
                 return out.fail('incoherent:marginals_vs_potentials' + tag, 'stored marginal on %s differs from the marginal implied by the stored potentials: %s' % (cl, why))
     rng = np.random.Generator(np.random.PCG64(order_seed))
     inq = outq = 0
-    for r in range(0, len(attrs) + 1):
+    tag0 = tag
+    for rep, r in [(rep, r) for rep in (0, 1) for r in range(0, len(attrs) + 1)]:
+        # second pass: every answer of the first pass was overwritten by the caller (below); the model must not notice
+        tag = tag0 if rep == 0 else tag0 + ':after_caller_edit'
         for sub in itertools.combinations(attrs, r):
             want = list(rng.permutation(list(sub))) if r > 1 else list(sub)
             want = [str(a) for a in want]
@@ -69,12 +72,15 @@ def coherent(out, model, attrs, shape, order_seed, tag=''):
             ok, why = oracles.close(v, oracles.marg(P, attrs, want), rt, at)
             if not ok:
                 return out.fail('incoherent:answer_vs_joint' + tag, 'project(%s) differs from the joint of the stored parameters: %s' % (want, why))
-            if any(set(want) <= set(c) for c in model.cliques): inq += 1
-            else: outq += 1
+            if rep == 0:
+                if any(set(want) <= set(c) for c in model.cliques): inq += 1
+                else: outq += 1
+                if isinstance(f.values, np.ndarray) and f.values.ndim > 0 and f.values.flags.writeable:
+                    f.values[...] = -777.0       # a caller editing the table it was handed
     dv = model.datavector(flatten=False)
     ok, why = oracles.close(dv, P, rt, at)
     if not ok:
-        return out.fail('incoherent:datavector' + tag, why)
+        return out.fail('incoherent:datavector' + tag0, why)
     return inq, outq
 
 
